@@ -1,5 +1,6 @@
 (* props/C19.v — C19: coordinate (UCI) text is standard, injective on the legal moves of a
    position, and reading it back reconstructs exactly the move rendered. *)
+From ChessV Require Import Rays InvProofs2 BridgeClosed.
 From Coq Require Import NArith List String.
 From ChessV Require Import Bits Types Board Moves MoveGen Abs San GeomProofs UciProofs UciGen.
 Open Scope N_scope.
@@ -31,9 +32,26 @@ Check @gen_moves_uci_injective.
 Check @sq_str_spec.
 Check @gen_wfb_sound.
 
+
+(* ---- closed (BridgeClosed.v): every generated move of a board satisfying the invariant fits ---- *)
+Section C19_closed.
+Variable T : ztable.
+Variables rook_t bishop_t : N -> N -> N.
+Hypothesis rook_t_ref : forall x o, x < 64 -> rook_t x o = rook_ref x o.
+Hypothesis bishop_t_ref : forall x o, x < 64 -> bishop_t x o = bishop_ref x o.
+Theorem C19_generated_moves_fit : forall b ms b', Inv rook_t bishop_t b ->
+  gen_moves T rook_t bishop_t b (turn b) = Ok (ms, b') -> forall m, In m ms -> fits b m.
+Proof. exact (generated_moves_fit T rook_t bishop_t). Qed.
+End C19_closed.
+Check @generated_moves_uci_roundtrip.
+Check @generated_moves_uci_injective.
+
 Print Assumptions C19_to_uci_spec.
 Print Assumptions C19_roundtrip_iff.
 Print Assumptions C19_injective.
 Print Assumptions C19_gen_moves_fit.
 Print Assumptions gen_moves_uci_roundtrip.
 Print Assumptions gen_moves_uci_injective.
+Print Assumptions C19_generated_moves_fit.
+Print Assumptions generated_moves_uci_roundtrip.
+Print Assumptions generated_moves_uci_injective.
